@@ -19,7 +19,7 @@ def sh(cmd, cwd=None, env=None, timeout=3000):
 
 def baseline(wt):
     base = json.load(open('/root/.vp/BASELINE.json'))
-    xml = '/tmp/seeded_junit.xml'
+    xml = '/tmp/seeded_junit_%s.xml' % os.path.basename(wt)
     sh('/venv/bin/python -m pytest -q -p no:cacheprovider --timeout=900 --continue-on-collection-errors --junitxml=%s' % xml,
        cwd=wt, env=dict(ENV, PYTHONPATH=wt))
     passed = set()
@@ -110,7 +110,11 @@ def main():
     ok = meta['demo_on_original']['rc'] == 0 and meta['demo_on_changed']['rc'] != 0 and not meta['baseline_missing_with_change'] and meta['patch_applies']
     meta['confirmed'] = ok
     print('confirmed' if ok else 'NOT confirmed', json.dumps({k: meta[k] for k in ('demo_on_original', 'demo_on_changed', 'baseline_missing_with_change')})[:800])
-    # run our checks against it
+    # run our checks against it (one verify at a time holds /repo: several verify processes may run their
+    # worktree phase in parallel)
+    import fcntl
+    lk = open('/tmp/seeded_repo.lock', 'w')
+    fcntl.flock(lk, fcntl.LOCK_EX)
     st, _ = sh('git -C %s status --porcelain' % REPO)
     assert _.strip() == '', '/repo not clean: ' + _
     results = {}
